@@ -469,7 +469,7 @@ func (ecd Encoder) Decode(pt *rlwe.Plaintext, values interface{}) (err error) {
 			modulusHalf := modulus >> 1
 
 			var value int64
-			for i := 0; i < N; i++ {
+			for i := 0; i < utils.Min(N, len(values)); i++ {
 				/* #nosec G115 -- values <= 61 bits */
 				if value = int64(ptT[i]); value >= modulusHalf {
 					values[i] = value - modulus
